@@ -50,7 +50,7 @@ func checkC09(c *Ctx) {
 	c09datumModel(c, a.js)
 	c.Floor("C09.R9", 6)
 	c.exhaust = true
-	a.helmert()
+	c09shiftModel(c, "C09.R6", "")
 	// R8 / R4: the pipeline around the datum shift, by model evaluation
 	c08pipeModel(c, "C09.R8", "C09.R4", "")
 	c.Floor("C09.R8", 4)
